@@ -29,6 +29,8 @@ type TReq struct {
 	Header map[string][]string `json:"header"`
 	Body   string              `json:"body"`
 	Host   string              `json:"host"`
+	// Unknown: the body is sent without a declared length (ContentLength -1)
+	Unknown bool `json:"unknown"`
 }
 
 type Case struct {
@@ -70,6 +72,7 @@ func gen(t *rapid.T) Case {
 		}
 		q.Body = rapid.SampledFrom(bodies).Draw(t, "body")
 		q.Host = rapid.SampledFrom([]string{"", "example.com", "<host>"}).Draw(t, "host")
+		q.Unknown = rapid.IntRange(0, 3).Draw(t, "unknownLen") == 0
 		c.Reqs = append(c.Reqs, q)
 	}
 	return c
@@ -133,7 +136,7 @@ func check(c Case, st *rig.Stats) error {
 		wantOnion = append(wantOnion, use[i])
 	}
 	for i, q := range c.Reqs {
-		req := rig.Req{Method: "TRACE", Path: q.Path, Host: q.Host, Header: q.Header, Body: q.Body}
+		req := rig.Req{Method: "TRACE", Path: q.Path, Host: q.Host, Header: q.Header, Body: q.Body, UnknownLength: q.Unknown}
 		o := rig.Serve(r, req)
 		where := fmt.Sprintf("request %d TRACE %q (trace option %v, body %v); live %v", i, q.Path, c.Trace, c.TraceBody, m.Live())
 		if o.Panicked {
@@ -158,6 +161,9 @@ func check(c Case, st *rig.Stats) error {
 			if q.Body != "" {
 				ref.Body = nopCloser{strings.NewReader(q.Body)}
 				ref.ContentLength = int64(len(q.Body))
+				if q.Unknown {
+					ref.ContentLength = -1
+				}
 			}
 			dump, err := httputil.DumpRequest(ref, c.TraceBody)
 			if err != nil {
